@@ -4,7 +4,7 @@
 From Coq Require Export List NArith ZArith Lia Bool Arith.
 Export ListNotations.
 
-Definition bytes := list N.
+Notation bytes := (list N) (only parsing).
 
 Fixpoint list_eqb {A} (eqb : A -> A -> bool) (a b : list A) : bool :=
   match a, b with
@@ -51,11 +51,12 @@ Fixpoint index_where {A} (p : A -> bool) (l : list A) : option nat :=
 
 (* Deterministic pseudo-random bytes, mirrored in the Go harness (util.go genBytes):
    lets a case carry (length, seed) instead of a long literal. *)
-Definition lcg (x : N) : N := ((x * 1664525 + 1013904223) mod 4294967296)%N.
+(* mod 2^32 and / 2^24, written with bit operations (fast under vm_compute) *)
+Definition lcg (x : N) : N := N.land (x * 1664525 + 1013904223) 4294967295.
 Fixpoint gen_bytes (n : nat) (x : N) : bytes :=
   match n with
   | O => []
-  | S k => let y := lcg x in (y / 16777216)%N :: gen_bytes k y
+  | S k => let y := lcg x in N.shiftr y 24 :: gen_bytes k y
   end.
 Definition gb (n : N) (seed : N) : bytes := gen_bytes (N.to_nat n) seed.
 
